@@ -251,6 +251,7 @@ pub mod codec {
 def main():
     rnd_n = 0
     seed = 0
+    only_random = False
     outdir = os.path.join(V, 'harness', 'schemas')
     args = sys.argv[1:]
     while args:
@@ -261,6 +262,16 @@ def main():
             seed = int(args.pop(0))
         elif a == '--out':
             outdir = args.pop(0)
+        elif a == '--only-random':
+            only_random = True
+    if only_random:
+        C = random_schemas(rnd_n, seed)
+        src = HEADER + '\n\n'.join(emit(s) for s in C) + '\n'
+        os.makedirs(os.path.join(outdir, 'src'), exist_ok=True)
+        open(os.path.join(outdir, 'src', 'lib.rs'), 'w').write(src)
+        json.dump({'schemas': C, 'pairs': [], 'seed': seed, 'random': rnd_n}, open(os.path.join(outdir, 'schemas.json'), 'w'), indent=1)
+        print('wrote %d random schemas' % len(C))
+        return
     C = corpus() + aux_enums()
     pairs = version_pairs()
     for a, b, rel in pairs:
